@@ -60,18 +60,18 @@ seeded changes and which check catches which in §11.
   | U8 | `indentation::indent` | equals the spec function of C19 | C19, C04 |
   | U9 | `indentation::dedent` | removes exactly the margin the statement defines | C18, C04 |
   | U10 | `fill::fill_inplace` | same length; bytes change only `' '` → `'\\n'`, and exactly at the run ends first-fit makes of each line's ASCII words; `from_utf8(..).unwrap()` cannot fail | C17, C04 |
-  | U11 | `wrap::wrap`, `wrap_single_line`, `wrap_single_line_slow_path` | every line starts with its indent; **for the whole text** line k is `indent_k ++ text[a_k..b_k] ++ (nothing \| "-")` with slices in order, on char boundaries, separated only by spaces and at most one line ending; the line breaker gets the widths of the indents actually rendered (and a zero-width first fragment when the first line is the narrower one); >= 1 line per paragraph, earlier lines untouched; the shortcut's exact result | C08, C01, C02, C09, C05, C04 |
+  | U11 | `wrap::wrap`, `wrap_single_line`, `wrap_single_line_slow_path` | every line starts with its indent; **for the whole text** line k is `indent_k ++ text[a_k..b_k] ++ (nothing \| "-")` with slices in order, on char boundaries, separated only by spaces and at most one line ending; the line breaker gets the widths of the indents actually rendered (and a zero-width first fragment when the first line is the narrower one); >= 1 line per paragraph, earlier lines untouched; the shortcut's exact result, and (first-fit, built-in splitters) the slow path gives that same line when entered under the shortcut's condition | C08, C01, C02, C09, C05, C04 |
   | U12 | `fill::fill_slow_path`, `fill::fill` | both equal `wrap`'s lines joined by the line ending — shortcut included | C09, C05, C04 |
   | U13 | `word_separators::find_words_ascii_space` (closure, R16) | words are `Word::from(line[s0..s1])` at exactly the space→non-space boundaries; they tile the line | C11, C01, C17 |
   | U14 | `word_splitters::split_words` (closure, R16) | pieces cut exactly at the split points, hyphen penalty rule, whitespace/penalty on the last piece only; tiling | C12, C01 |
   | U15 | `core::Word::break_apart` (closure, R16) | non-empty pieces, concatenation, width limit unless a single non-zero-width char, maximality, never inside an escape sequence, cached widths | C12, C13, C01 |
-  | U16 | `WordSplitter::split_points` (hyphen splitter) | exactly the positions after a `-` with alphanumerics on both sides; increasing char boundaries | C12 |
-  | U17 | `WrapAlgorithm::wrap` (dispatch), `Word`'s `Fragment` impl | hands the words and every listed width to the algorithm unchanged and its partition back; accessors are pure functions of the fields | C06, C07, C03, C01 |
+  | U16 | `WordSplitter::split_points` (hyphen splitter) | exactly the positions after a `-` with alphanumerics on both sides; increasing char boundaries; each directly after a `-` byte | C12, C05 |
+  | U17 | `WrapAlgorithm::wrap` (dispatch), `Word`'s `Fragment` impl | hands the words and every listed width to the algorithm unchanged and its partition back; accessors are pure functions of the fields; first-fit keeps words that all fit the first line on one line (A16) | C06, C07, C03, C05, C01 |
   | U18 | `refill::unfill` | indents are prefixes made of prefix characters; no inner line break; line-ending rule; all slices safe | C15, C04 |
   | U20 | `word_separators::find_words_unicode_break_properties` (three closures, R16) | the boundaries are exactly the kept UAX #14 opportunities (relative to the assumed shape of `unicode_linebreak::linebreaks`), one each, in order, mapped back outside escape sequences; words tile the line | C11, C13, C01 |
   | U21 | `refill::refill` | `refill(x, o2) == fill(unfill(x).text minus final ending, o2 with unfill(x)'s indents) ++ ending` | C16, C04 |
   | U23 | `optimal_fit::LineNumbers::{new, get}` (RefCell memo, rewrite R17) | terminates, no panic, returns the number of back-pointer hops — for every table of smawk's shape | C03, C06, C04 |
-  | U22 | `options.rs`: `Options::new`, `From<&Options>`, `From<usize>`, the eight setters | the by-reference conversion copies every option unchanged; documented defaults; each setter changes exactly its field | C09, C08, C02, C04 |
+  | U22 | `options.rs`: `Options::new`, `From<&Options>`, `From<usize>`, the eight setters; `LineEnding::as_str` | the by-reference conversion copies every option unchanged; documented defaults; each setter changes exactly its field; `as_str` is `"\\r\\n"` / `"\\n"` | C09, C08, C02, C04 |
   | K1 | `core::ch_width` | `ch_width(c) <= c.len_utf8()` for all 1,112,064 scalar values (Kani, loop-free) | C10, C05, C04 |
 
 * **Genuine defects found and repaired** (five `fix:` commits in `/repo`, §5): F1 (C02), F2 (C08), F5 (C20/C04) were
